@@ -29,7 +29,9 @@ TRejMulti == Step /\ Ev.op = "rejmulti" /\
             IN \E S \in SUBSET W : RejectedMulti(Ev.f, W, w, S) /\ PostOK
 TReject  == Step /\ Ev.op = "reject" /\ Reject(Ev.k, Ev.kind, Ev.api) /\ PostOK
 
-TraceNext == TWrite \/ TMulti \/ TRejMulti \/ TReject
+TInstall == Step /\ Ev.op = "install" /\ Ev.front \in InstFronts /\ Ev.s \in Species /\ Ev.d \in Donors /\ Install(Ev.front, Ev.s, Ev.d) /\ PostOK
+
+TraceNext == TWrite \/ TMulti \/ TRejMulti \/ TReject \/ TInstall
 TraceSpec == TraceInit /\ [][TraceNext]_tvars
 
 \* progress report: the harness accepts trace tid iff some state reports l = Len + 1
